@@ -380,11 +380,17 @@ func (r *Registry) structSort(key string, st *types.Struct) string {
 	si := &structInfo{sort: name, named: key, st: st}
 	r.structOf[name] = si
 	var fs []string
+	seenAcc := map[string]bool{}
 	for i := 0; i < st.NumFields(); i++ {
 		f := st.Field(i)
 		fsort := r.sortOf(f.Type())
-		si.fields = append(si.fields, fieldInfo{name: f.Name(), sort: fsort, typ: f.Type()})
-		fs = append(fs, fmt.Sprintf("(%s_%s %s)", name, sanitize(f.Name()), fsort))
+		fname := f.Name()
+		if fname == "_" || seenAcc[sanitize(fname)] {
+			fname = fmt.Sprintf("%s_f%d", fname, i)
+		}
+		seenAcc[sanitize(fname)] = true
+		si.fields = append(si.fields, fieldInfo{name: fname, sort: fsort, typ: f.Type()})
+		fs = append(fs, fmt.Sprintf("(%s_%s %s)", name, sanitize(fname), fsort))
 	}
 	if len(fs) == 0 {
 		r.sortDecls = append(r.sortDecls, fmt.Sprintf("(declare-datatypes ((%s 0)) (((mk_%s))))", name, name))
